@@ -18,9 +18,10 @@ CONSTANTS Tier, Seed, Mod, TickMs
 Q == Tier = "quick"
 Leafs  == {"m", "mx", "moff", "mpin", "rate", "sot", "lot", "time", "num", "sp", "vec1", "n"}
 Wraps  == {"id", "abs", "neg", "sumby", "sum", "topk", "topkby", "maxwo", "mul2", "gt3", "gtb3", "cmin", "ts", "count", "q50", "scalar", "paren", "avgby", "bk2"}
-Wraps2 == IF Q THEN {"id", "neg", "sumby", "topkby", "mul2", "gt3", "scalar", "count"} ELSE Wraps
+Wraps2 == IF Q THEN {"id", "neg", "sumby", "topkby", "mul2", "gt3", "scalar", "count"}
+          ELSE {"id", "neg", "sumby", "topkby", "mul2", "gt3", "scalar", "count", "abs", "maxwo", "q50", "paren"}
 Wraps1 == IF Q THEN {"id", "abs", "neg", "sumby", "topk", "topkby", "maxwo", "gtb3", "cmin", "ts", "q50", "scalar", "bk2"} ELSE Wraps
-Leafs2 == IF Q THEN {"none", "m", "sp"} ELSE {"none", "m", "n", "num", "sp", "rate", "mpin", "time"}
+Leafs2 == IF Q THEN {"none", "m", "sp"} ELSE {"none", "m", "n", "sp", "rate", "mpin"}
 BOps   == IF Q THEN {"+", ">", "gl"} ELSE {"+", ">", "gl", "*on", "==b", "-"}
 \* 1 = instant query; 0 = a range query of a single step (start = end)
 NStepsSet == IF Q THEN {0, 1, 12} ELSE {0, 1, 4, 12, 23}
